@@ -1,5 +1,5 @@
 (* C02S — source tie by translation for the back-edge closures of gradients.go.
-   Statements only (proofs: Proofs/ChainP.v).  Model/Chains.v is REGENERATED from /repo's Go sources
+   Statements only (proofs: Proofs/Chain*P.v).  Model/Chains.v is REGENERATED from /repo's Go sources
    on every run by the translator harness/chainx (go/ast): the straight-line chains of Tensor method
    calls of the 45 gradFn closures of tensor/internal/gradtrack/gradients.go (all operations except Concat and Broadcast, whose rules contain loops) and the helpers toZeros, toOnes, reducerBroadcasted.
    Each theorem interprets the generated chain with the model's own operations (Model/ChainIR.v) and
@@ -9,20 +9,20 @@
 From Coq Require Import String List ZArith Bool.
 From Qeep Require Import Model.Scalar Model.Nd Model.Data Model.Valid Model.Api Model.Grad Model.Components Model.ChainIR.
 From Qeep Require Model.Chains.
-From Qeep Require Import Proofs.ChainP.
+From Qeep Require Import Proofs.WiringP Proofs.ChainBaseP Proofs.ChainRuleP.
 Import ListNotations.
 Local Open Scope string_scope.
 
 Theorem toZeros_is_its_source_chain :
   forall (A : Type) (SA : Scalar A) (t : tensor A),
   toZeros t = asRes (runFun (hooksV vrNone noVUser noBind noCond) Chains.g_toZeros tt [("t", t)]).
-Proof. exact @ChainP.toZeros_chain. Qed.
+Proof. exact @ChainRuleP.toZeros_chain. Qed.
 Print Assumptions toZeros_is_its_source_chain.
 
 Theorem toOnes_is_its_source_chain :
   forall (A : Type) (SA : Scalar A) (t : tensor A),
   toOnes t = asRes (runFun (hooksV vrNone noVUser noBind noCond) Chains.g_toOnes tt [("t", t)]).
-Proof. exact @ChainP.toOnes_chain. Qed.
+Proof. exact @ChainRuleP.toOnes_chain. Qed.
 Print Assumptions toOnes_is_its_source_chain.
 
 Theorem reducerBroadcasted_is_its_source_chain :
@@ -31,7 +31,7 @@ Theorem reducerBroadcasted_is_its_source_chain :
   asRes
     (runFun (hooksV (vrRB x dim) noVUser noBind noCond) Chains.g_reducerBroadcasted tt
        [("y", y); ("x", x)]).
-Proof. exact @ChainP.reducerBroadcasted_chain. Qed.
+Proof. exact @ChainRuleP.reducerBroadcasted_chain. Qed.
 Print Assumptions reducerBroadcasted_is_its_source_chain.
 
 Theorem back_Slice_0_rule_is_its_source_closure :
@@ -42,7 +42,7 @@ Theorem back_Slice_0_rule_is_its_source_closure :
    asRes
      (runFun (hooksV (vrOf gy (lk []) (lk []) (lk []) (lk [("index", index)])) hu0 noBind noCond)
         Chains.back_Slice_0 tt [("x", xv)])).
-Proof. exact @ChainP.back_Slice_0_chain. Qed.
+Proof. exact @ChainRuleP.back_Slice_0_chain. Qed.
 Print Assumptions back_Slice_0_rule_is_its_source_closure.
 
 Theorem back_Patch_0_rule_is_its_source_closure :
@@ -53,7 +53,7 @@ Theorem back_Patch_0_rule_is_its_source_closure :
    asRes
      (runFun (hooksV (vrOf gy (lk []) (lk []) (lk []) (lk [("index", index)])) hu0 noBind noCond)
         Chains.back_Patch_0 tt [("p", pv)])).
-Proof. exact @ChainP.back_Patch_0_chain. Qed.
+Proof. exact @ChainRuleP.back_Patch_0_chain. Qed.
 Print Assumptions back_Patch_0_rule_is_its_source_closure.
 
 Theorem back_Patch_1_rule_is_its_source_closure :
@@ -67,38 +67,38 @@ Theorem back_Patch_1_rule_is_its_source_closure :
            (vrOf gy (lk []) (lk []) (lk [])
               (lk [("patchedRegion(index, p.Shape())", patchedRegion index (zdims pv))])) hu0 noBind
            noCond) Chains.back_Patch_1 tt [("p", pv)])).
-Proof. exact @ChainP.back_Patch_1_chain. Qed.
+Proof. exact @ChainRuleP.back_Patch_1_chain. Qed.
 Print Assumptions back_Patch_1_rule_is_its_source_closure.
 
 Theorem back_Transpose_0_rule_is_its_source_closure :
   forall (A : Type) (SA : Scalar A) (rd : bred) (h : heap) (y : nat),
   eval_rule rd h (RTranspose y) =
   (dor gy <- gy_of h y; asRes (runFun (hooksV (vrG gy) hu0 noBind noCond) Chains.back_Transpose_0 tt [])).
-Proof. exact @ChainP.back_Transpose_0_chain. Qed.
+Proof. exact @ChainRuleP.back_Transpose_0_chain. Qed.
 Print Assumptions back_Transpose_0_rule_is_its_source_closure.
 
 Theorem back_Reshape_0_rule_is_its_source_closure :
   forall (A : Type) (SA : Scalar A) (rd : bred) (h : heap) (y x : nat),
   reshapeBack rd h Chains.back_Reshape_0 y x.
-Proof. exact @ChainP.back_Reshape_0_chain. Qed.
+Proof. exact @ChainRuleP.back_Reshape_0_chain. Qed.
 Print Assumptions back_Reshape_0_rule_is_its_source_closure.
 
 Theorem back_UnSqueeze_0_rule_is_its_source_closure :
   forall (A : Type) (SA : Scalar A) (rd : bred) (h : heap) (y x : nat),
   reshapeBack rd h Chains.back_UnSqueeze_0 y x.
-Proof. exact @ChainP.back_UnSqueeze_0_chain. Qed.
+Proof. exact @ChainRuleP.back_UnSqueeze_0_chain. Qed.
 Print Assumptions back_UnSqueeze_0_rule_is_its_source_closure.
 
 Theorem back_Squeeze_0_rule_is_its_source_closure :
   forall (A : Type) (SA : Scalar A) (rd : bred) (h : heap) (y x : nat),
   reshapeBack rd h Chains.back_Squeeze_0 y x.
-Proof. exact @ChainP.back_Squeeze_0_chain. Qed.
+Proof. exact @ChainRuleP.back_Squeeze_0_chain. Qed.
 Print Assumptions back_Squeeze_0_rule_is_its_source_closure.
 
 Theorem back_Flatten_0_rule_is_its_source_closure :
   forall (A : Type) (SA : Scalar A) (rd : bred) (h : heap) (y x : nat),
   reshapeBack rd h Chains.back_Flatten_0 y x.
-Proof. exact @ChainP.back_Flatten_0_chain. Qed.
+Proof. exact @ChainRuleP.back_Flatten_0_chain. Qed.
 Print Assumptions back_Flatten_0_rule_is_its_source_closure.
 
 Theorem back_SumAlong_0_rule_is_its_source_closure :
@@ -109,31 +109,31 @@ Theorem back_SumAlong_0_rule_is_its_source_closure :
    asRes
      (runFun (hooksV (vrOf gy (lk []) (dimI dim) (lk []) (lk [])) (helperUser (dimI dim)) noBind noCond)
         Chains.back_SumAlong_0 tt [("x", xv)])).
-Proof. exact @ChainP.back_SumAlong_0_chain. Qed.
+Proof. exact @ChainRuleP.back_SumAlong_0_chain. Qed.
 Print Assumptions back_SumAlong_0_rule_is_its_source_closure.
 
 Theorem back_MaxAlong_0_rule_is_its_source_closure :
   forall (A : Type) (SA : Scalar A) (rd : bred) (h : heap) (y x : nat) (dim : Z),
   extBack rd h Chains.back_MaxAlong_0 y x dim.
-Proof. exact @ChainP.back_MaxAlong_0_chain. Qed.
+Proof. exact @ChainRuleP.back_MaxAlong_0_chain. Qed.
 Print Assumptions back_MaxAlong_0_rule_is_its_source_closure.
 
 Theorem back_MinAlong_0_rule_is_its_source_closure :
   forall (A : Type) (SA : Scalar A) (rd : bred) (h : heap) (y x : nat) (dim : Z),
   extBack rd h Chains.back_MinAlong_0 y x dim.
-Proof. exact @ChainP.back_MinAlong_0_chain. Qed.
+Proof. exact @ChainRuleP.back_MinAlong_0_chain. Qed.
 Print Assumptions back_MinAlong_0_rule_is_its_source_closure.
 
 Theorem back_AvgAlong_0_rule_is_its_source_closure :
   forall (A : Type) (SA : Scalar A) (rd : bred) (h : heap) (y x : nat) (dim : Z),
   avgBack rd h Chains.back_AvgAlong_0 y x dim.
-Proof. exact @ChainP.back_AvgAlong_0_chain. Qed.
+Proof. exact @ChainRuleP.back_AvgAlong_0_chain. Qed.
 Print Assumptions back_AvgAlong_0_rule_is_its_source_closure.
 
 Theorem back_MeanAlong_0_rule_is_its_source_closure :
   forall (A : Type) (SA : Scalar A) (rd : bred) (h : heap) (y x : nat) (dim : Z),
   avgBack rd h Chains.back_MeanAlong_0 y x dim.
-Proof. exact @ChainP.back_MeanAlong_0_chain. Qed.
+Proof. exact @ChainRuleP.back_MeanAlong_0_chain. Qed.
 Print Assumptions back_MeanAlong_0_rule_is_its_source_closure.
 
 Theorem back_VarAlong_0_rule_is_its_source_closure :
@@ -146,7 +146,7 @@ Theorem back_VarAlong_0_rule_is_its_source_closure :
         (hooksV (vrOf gy (varScalar xv dim "2 / float64(n - 1)" 2) (dimI dim) (lk []) (lk []))
            (helperUser (dimI dim)) noBind (varCond xv dim)) Chains.back_VarAlong_0 tt [(
         "x", xv)])).
-Proof. exact @ChainP.back_VarAlong_0_chain. Qed.
+Proof. exact @ChainRuleP.back_VarAlong_0_chain. Qed.
 Print Assumptions back_VarAlong_0_rule_is_its_source_closure.
 
 Theorem back_StdAlong_0_rule_is_its_source_closure :
@@ -160,7 +160,7 @@ Theorem back_StdAlong_0_rule_is_its_source_closure :
         (hooksV (vrOf gy (varScalar xv dim "1 / float64(n - 1)" 1) (dimI dim) (lk []) (lk []))
            (helperUser (dimI dim)) noBind (varCond xv dim)) Chains.back_StdAlong_0 tt
         [("y", yv); ("x", xv)])).
-Proof. exact @ChainP.back_StdAlong_0_chain. Qed.
+Proof. exact @ChainRuleP.back_StdAlong_0_chain. Qed.
 Print Assumptions back_StdAlong_0_rule_is_its_source_closure.
 
 Theorem back_Scale_0_rule_is_its_source_closure :
@@ -170,7 +170,7 @@ Theorem back_Scale_0_rule_is_its_source_closure :
    asRes
      (runFun (hooksV (vrOf gy (lk [("a", a)]) (lk []) (lk []) (lk [])) hu0 noBind noCond)
         Chains.back_Scale_0 tt [])).
-Proof. exact @ChainP.back_Scale_0_chain. Qed.
+Proof. exact @ChainRuleP.back_Scale_0_chain. Qed.
 Print Assumptions back_Scale_0_rule_is_its_source_closure.
 
 Theorem back_Pow_0_rule_is_its_source_closure :
@@ -183,7 +183,7 @@ Theorem back_Pow_0_rule_is_its_source_closure :
         (hooksV (vrOf gy (lk [("a - 1", ssub a (cst 1 0)); ("a", a)]) (lk []) (lk []) (lk [])) hu0
            noBind (fun (_ : lets) (t : string) => if t =? "a == 0" then Some azero else None))
         Chains.back_Pow_0 tt [("x", xv)])).
-Proof. exact @ChainP.back_Pow_0_chain. Qed.
+Proof. exact @ChainRuleP.back_Pow_0_chain. Qed.
 Print Assumptions back_Pow_0_rule_is_its_source_closure.
 
 Theorem back_Exp_0_rule_is_its_source_closure :
@@ -192,97 +192,97 @@ Theorem back_Exp_0_rule_is_its_source_closure :
   (dor gy <- gy_of h y;
    dor yv <- val_of h y;
    asRes (runFun (hooksV (vrG gy) hu0 noBind noCond) Chains.back_Exp_0 tt [("y", yv)])).
-Proof. exact @ChainP.back_Exp_0_chain. Qed.
+Proof. exact @ChainRuleP.back_Exp_0_chain. Qed.
 Print Assumptions back_Exp_0_rule_is_its_source_closure.
 
 Theorem back_Log_0_rule_is_its_source_closure :
   forall (A : Type) (SA : Scalar A) (rd : bred) (h : heap) (y x : nat),
   unaryBack rd h RLog Chains.back_Log_0 y x.
-Proof. exact @ChainP.back_Log_0_chain. Qed.
+Proof. exact @ChainRuleP.back_Log_0_chain. Qed.
 Print Assumptions back_Log_0_rule_is_its_source_closure.
 
 Theorem back_Sin_0_rule_is_its_source_closure :
   forall (A : Type) (SA : Scalar A) (rd : bred) (h : heap) (y x : nat),
   unaryBack rd h RSin Chains.back_Sin_0 y x.
-Proof. exact @ChainP.back_Sin_0_chain. Qed.
+Proof. exact @ChainRuleP.back_Sin_0_chain. Qed.
 Print Assumptions back_Sin_0_rule_is_its_source_closure.
 
 Theorem back_Cos_0_rule_is_its_source_closure :
   forall (A : Type) (SA : Scalar A) (rd : bred) (h : heap) (y x : nat),
   unaryBack rd h RCos Chains.back_Cos_0 y x.
-Proof. exact @ChainP.back_Cos_0_chain. Qed.
+Proof. exact @ChainRuleP.back_Cos_0_chain. Qed.
 Print Assumptions back_Cos_0_rule_is_its_source_closure.
 
 Theorem back_Tan_0_rule_is_its_source_closure :
   forall (A : Type) (SA : Scalar A) (rd : bred) (h : heap) (y x : nat),
   unaryBack rd h RTan Chains.back_Tan_0 y x.
-Proof. exact @ChainP.back_Tan_0_chain. Qed.
+Proof. exact @ChainRuleP.back_Tan_0_chain. Qed.
 Print Assumptions back_Tan_0_rule_is_its_source_closure.
 
 Theorem back_Sinh_0_rule_is_its_source_closure :
   forall (A : Type) (SA : Scalar A) (rd : bred) (h : heap) (y x : nat),
   unaryBack rd h RSinh Chains.back_Sinh_0 y x.
-Proof. exact @ChainP.back_Sinh_0_chain. Qed.
+Proof. exact @ChainRuleP.back_Sinh_0_chain. Qed.
 Print Assumptions back_Sinh_0_rule_is_its_source_closure.
 
 Theorem back_Cosh_0_rule_is_its_source_closure :
   forall (A : Type) (SA : Scalar A) (rd : bred) (h : heap) (y x : nat),
   unaryBack rd h RCosh Chains.back_Cosh_0 y x.
-Proof. exact @ChainP.back_Cosh_0_chain. Qed.
+Proof. exact @ChainRuleP.back_Cosh_0_chain. Qed.
 Print Assumptions back_Cosh_0_rule_is_its_source_closure.
 
 Theorem back_Tanh_0_rule_is_its_source_closure :
   forall (A : Type) (SA : Scalar A) (rd : bred) (h : heap) (y x : nat),
   unaryBack rd h RTanh Chains.back_Tanh_0 y x.
-Proof. exact @ChainP.back_Tanh_0_chain. Qed.
+Proof. exact @ChainRuleP.back_Tanh_0_chain. Qed.
 Print Assumptions back_Tanh_0_rule_is_its_source_closure.
 
 Theorem back_ElMax_0_rule_is_its_source_closure :
   forall (A : Type) (SA : Scalar A) (rd : bred) (h : heap) (y a b : nat),
   elselBack rd h Chains.back_ElMax_0 true y a b.
-Proof. exact @ChainP.back_ElMax_0_chain. Qed.
+Proof. exact @ChainRuleP.back_ElMax_0_chain. Qed.
 Print Assumptions back_ElMax_0_rule_is_its_source_closure.
 
 Theorem back_ElMax_1_rule_is_its_source_closure :
   forall (A : Type) (SA : Scalar A) (rd : bred) (h : heap) (y a b : nat),
   elselBack rd h Chains.back_ElMax_1 false y a b.
-Proof. exact @ChainP.back_ElMax_1_chain. Qed.
+Proof. exact @ChainRuleP.back_ElMax_1_chain. Qed.
 Print Assumptions back_ElMax_1_rule_is_its_source_closure.
 
 Theorem back_ElMin_0_rule_is_its_source_closure :
   forall (A : Type) (SA : Scalar A) (rd : bred) (h : heap) (y a b : nat),
   elselBack rd h Chains.back_ElMin_0 true y a b.
-Proof. exact @ChainP.back_ElMin_0_chain. Qed.
+Proof. exact @ChainRuleP.back_ElMin_0_chain. Qed.
 Print Assumptions back_ElMin_0_rule_is_its_source_closure.
 
 Theorem back_ElMin_1_rule_is_its_source_closure :
   forall (A : Type) (SA : Scalar A) (rd : bred) (h : heap) (y a b : nat),
   elselBack rd h Chains.back_ElMin_1 false y a b.
-Proof. exact @ChainP.back_ElMin_1_chain. Qed.
+Proof. exact @ChainRuleP.back_ElMin_1_chain. Qed.
 Print Assumptions back_ElMin_1_rule_is_its_source_closure.
 
 Theorem back_Add_0_rule_is_its_source_closure :
   forall (A : Type) (SA : Scalar A) (rd : bred) (h : heap) (y : nat),
   gyOnly rd h (RId y) Chains.back_Add_0 y.
-Proof. exact @ChainP.back_Add_0_chain. Qed.
+Proof. exact @ChainRuleP.back_Add_0_chain. Qed.
 Print Assumptions back_Add_0_rule_is_its_source_closure.
 
 Theorem back_Add_1_rule_is_its_source_closure :
   forall (A : Type) (SA : Scalar A) (rd : bred) (h : heap) (y : nat),
   gyOnly rd h (RId y) Chains.back_Add_1 y.
-Proof. exact @ChainP.back_Add_1_chain. Qed.
+Proof. exact @ChainRuleP.back_Add_1_chain. Qed.
 Print Assumptions back_Add_1_rule_is_its_source_closure.
 
 Theorem back_Sub_0_rule_is_its_source_closure :
   forall (A : Type) (SA : Scalar A) (rd : bred) (h : heap) (y : nat),
   gyOnly rd h (RId y) Chains.back_Sub_0 y.
-Proof. exact @ChainP.back_Sub_0_chain. Qed.
+Proof. exact @ChainRuleP.back_Sub_0_chain. Qed.
 Print Assumptions back_Sub_0_rule_is_its_source_closure.
 
 Theorem back_Sub_1_rule_is_its_source_closure :
   forall (A : Type) (SA : Scalar A) (rd : bred) (h : heap) (y : nat),
   gyOnly rd h (RNeg y) Chains.back_Sub_1 y.
-Proof. exact @ChainP.back_Sub_1_chain. Qed.
+Proof. exact @ChainRuleP.back_Sub_1_chain. Qed.
 Print Assumptions back_Sub_1_rule_is_its_source_closure.
 
 Theorem back_Mul_0_rule_is_its_source_closure :
@@ -291,7 +291,7 @@ Theorem back_Mul_0_rule_is_its_source_closure :
   (dor gy <- gy_of h y;
    dor bv <- val_of h b;
    asRes (runFun (hooksV (vrG gy) hu0 noBind noCond) Chains.back_Mul_0 tt [("b", bv)])).
-Proof. exact @ChainP.back_Mul_0_chain. Qed.
+Proof. exact @ChainRuleP.back_Mul_0_chain. Qed.
 Print Assumptions back_Mul_0_rule_is_its_source_closure.
 
 Theorem back_Mul_1_rule_is_its_source_closure :
@@ -300,7 +300,7 @@ Theorem back_Mul_1_rule_is_its_source_closure :
   (dor gy <- gy_of h y;
    dor av <- val_of h a;
    asRes (runFun (hooksV (vrG gy) hu0 noBind noCond) Chains.back_Mul_1 tt [("a", av)])).
-Proof. exact @ChainP.back_Mul_1_chain. Qed.
+Proof. exact @ChainRuleP.back_Mul_1_chain. Qed.
 Print Assumptions back_Mul_1_rule_is_its_source_closure.
 
 Theorem back_Div_0_rule_is_its_source_closure :
@@ -309,7 +309,7 @@ Theorem back_Div_0_rule_is_its_source_closure :
   (dor gy <- gy_of h y;
    dor bv <- val_of h b;
    asRes (runFun (hooksV (vrG gy) hu0 noBind noCond) Chains.back_Div_0 tt [("b", bv)])).
-Proof. exact @ChainP.back_Div_0_chain. Qed.
+Proof. exact @ChainRuleP.back_Div_0_chain. Qed.
 Print Assumptions back_Div_0_rule_is_its_source_closure.
 
 Theorem back_Div_1_rule_is_its_source_closure :
@@ -319,19 +319,19 @@ Theorem back_Div_1_rule_is_its_source_closure :
    dor av <- val_of h a;
    dor bv <- val_of h b;
    asRes (runFun (hooksV (vrG gy) hu0 noBind noCond) Chains.back_Div_1 tt [("a", av); ("b", bv)])).
-Proof. exact @ChainP.back_Div_1_chain. Qed.
+Proof. exact @ChainRuleP.back_Div_1_chain. Qed.
 Print Assumptions back_Div_1_rule_is_its_source_closure.
 
 Theorem back_Dot_0_rule_is_its_source_closure :
   forall (A : Type) (SA : Scalar A) (rd : bred) (h : heap) (y b : nat),
   dotBack rd h Chains.back_Dot_0 "b" y b.
-Proof. exact @ChainP.back_Dot_0_chain. Qed.
+Proof. exact @ChainRuleP.back_Dot_0_chain. Qed.
 Print Assumptions back_Dot_0_rule_is_its_source_closure.
 
 Theorem back_Dot_1_rule_is_its_source_closure :
   forall (A : Type) (SA : Scalar A) (rd : bred) (h : heap) (y a : nat),
   dotBack rd h Chains.back_Dot_1 "a" y a.
-Proof. exact @ChainP.back_Dot_1_chain. Qed.
+Proof. exact @ChainRuleP.back_Dot_1_chain. Qed.
 Print Assumptions back_Dot_1_rule_is_its_source_closure.
 
 Theorem back_MatMul_0_rule_is_its_source_closure :
@@ -340,7 +340,7 @@ Theorem back_MatMul_0_rule_is_its_source_closure :
   (dor gy <- gy_of h y;
    dor bv <- val_of h b;
    asRes (runFun (hooksV (vrG gy) hu0 noBind noCond) Chains.back_MatMul_0 tt [("b", bv)])).
-Proof. exact @ChainP.back_MatMul_0_chain. Qed.
+Proof. exact @ChainRuleP.back_MatMul_0_chain. Qed.
 Print Assumptions back_MatMul_0_rule_is_its_source_closure.
 
 Theorem back_MatMul_1_rule_is_its_source_closure :
@@ -349,10 +349,15 @@ Theorem back_MatMul_1_rule_is_its_source_closure :
   (dor gy <- gy_of h y;
    dor av <- val_of h a;
    asRes (runFun (hooksV (vrG gy) hu0 noBind noCond) Chains.back_MatMul_1 tt [("a", av)])).
-Proof. exact @ChainP.back_MatMul_1_chain. Qed.
+Proof. exact @ChainRuleP.back_MatMul_1_chain. Qed.
 Print Assumptions back_MatMul_1_rule_is_its_source_closure.
 
 Theorem every_rule_constructor_starts_with_the_spent_untracked_test :
   forallb prologue_ok Chains.rule_prologues = true /\ Datatypes.length Chains.rule_prologues = 32.
-Proof. exact @ChainP.rule_prologues_ok. Qed.
+Proof. exact @ChainRuleP.rule_prologues_ok. Qed.
 Print Assumptions every_rule_constructor_starts_with_the_spent_untracked_test.
+
+Theorem method_layer_of_differentiable_ops_is_as_modelled :
+  same_wiring differentiable_methods.
+Proof. exact @WiringP.wiring_differentiable. Qed.
+Print Assumptions method_layer_of_differentiable_ops_is_as_modelled.
